@@ -302,4 +302,21 @@ theorem plain_writes (cfg : Cfg) (ws : List (List UInt8)) :
       exact expected_write s.dest b bs.flatten hne
 
 
+/-- The sparse-enabling condition of `io_open_dest_real` for standard output. -/
+def sparseOk (noSparse : Bool) (mode : Mode) (d : Dest) : Prop :=
+  noSparse = false ∧ mode = .decompress ∧ d.kind = .regular ∧ (d.flags.append = true ∨ d.offset = d.content.length)
+
+theorem openStdout_spec (noSparse : Bool) (mode : Mode) (d : Dest) :
+    let s := openStdout noSparse mode d
+    s.dest.kind = d.kind ∧ s.dest.content = d.content ∧ s.pending = 0 ∧ s.isStdout = true ∧
+    ((s.restoreFlags = true ∧ s.savedFlags = d.flags) ∨ (s.restoreFlags = false ∧ s.dest.flags = d.flags)) ∧
+    (s.trySparse = true ↔ sparseOk noSparse mode d) ∧
+    (s.trySparse = true → s.dest.flags.append = false ∧ s.dest.offset = d.content.length) ∧
+    (s.trySparse = false → s.dest.offset = d.offset ∧ s.dest.flags.append = d.flags.append) := by
+  obtain ⟨kind, content, offset, ⟨app, nb⟩⟩ := d
+  by_cases ho : offset = content.length <;>
+  cases noSparse <;> cases mode <;> cases kind <;> cases app <;> cases nb <;>
+    simp [openStdout, sparseOk, ho]
+
+
 end XzVerif.Sparse
